@@ -50,6 +50,8 @@ def reexec_pinned():
 
 
 def load_known():
+    if os.environ.get("VERIF_IGNORE_KNOWN"):
+        return {}  # maintenance: regenerate the replay files of the known findings
     path = os.path.join(VERIF, "known_findings.json")
     try:
         with open(path) as f:
@@ -303,6 +305,30 @@ def build_evidence(prop, spec, engine, tier, seed, agg, wall, wall_main, determi
     }
 
 
+def selftest_findings():
+    """Every replay kept under findings/ whose signature is a *known* finding must still reproduce on the
+    current tree (a known finding that no longer reproduces is stale and should be removed from
+    known_findings.json); replays of *fixed* defects must NOT reproduce."""
+    known = load_known()
+    bad = 0
+    fdir = os.path.join(VERIF, "findings")
+    for name in sorted(os.listdir(fdir)):
+        if not name.endswith(".json"):
+            continue
+        path = os.path.join(fdir, name)
+        with open(path) as f:
+            sig = json.load(f).get("signature")
+        r = subprocess.run([sys.executable, "-m", "vsim.cli", "--replay", path, "--quiet"], cwd=VERIF,
+                           stdout=subprocess.PIPE, stderr=subprocess.STDOUT)
+        reproduced = r.returncode == 1
+        want = sig in known
+        ok = reproduced == want
+        print("FINDING %-44s %-50s %s (%s)" % (name, sig, "reproduces" if reproduced else "does not reproduce",
+                                              ("known finding: ok" if want else "fixed: ok") if ok else "UNEXPECTED"))
+        bad += 0 if ok else 1
+    return 2 if bad else 0
+
+
 def selftest_determinism(names, runs_override=None):
     """Large-sample determinism self-test: the same run indices executed in separate interpreters, at
     different worker counts and (for engines whose event log does not depend on set order) under
@@ -417,6 +443,8 @@ def main():
     if args.replay:
         sys.exit(replay_file(args.replay, args.quiet))
     reexec_pinned()
+    if args.target == "selftest-findings":
+        sys.exit(selftest_findings())
     if args.target == "selftest-determinism":
         sys.exit(selftest_determinism(args.names, args.runs))
     if args.target == "selftest-mutants":
